@@ -18,6 +18,18 @@ E4_META = {
                     "seed=None results in pass-through mode depend on a stack address and are excluded from digests (verdict only)"],
 }
 
+E1_META = {
+    "rule": ("each evaluation is one seeded history of <=60 operations on a pool of <=6 live objects (ten model types, dicts, numbers) "
+             "with exact reference polynomials and deep snapshots; a run is non-trivial if an event of interest fired (self-aliased "
+             "operator, zero assigned to a new label, even-power spin key, KeyError inside an in-place operator, refresh/copy/conversion of a "
+             "stale model, a hand-out mutated by the caller, a pure API call on a pool object, a second ancilla-bearing constraint, an info "
+             "round trip with constraints and ancillas); distinct = distinct digests of the per-op event log"),
+    "expected_probes": ["self_aliased_inplace", "self_aliased_operator", "reflected_operator", "cancellation"],
+    "components": {"real": REAL_PY, "stub": ["none: the faults are caller-side (aliasing, mutation of hand-outs, mid-operation exceptions); no seam is replaced"]},
+    "assumptions": ["integer / dyadic coefficients so qubovert's float arithmetic is exact and all comparisons are exact",
+                    "reference polynomial arithmetic (RefPoly) written from the definition, cross-checked by its own truth-table self-test"],
+}
+
 PROPS = {
     "C13": {
         "engine": "e3",
@@ -52,5 +64,23 @@ PROPS = {
         "thorough": {"stages": [{"variant": "sim", "runs": 200000, "block": 2000, "wall": 240},
                                 {"variant": "san", "runs": 120000, "block": 1000, "wall": 600}]},
         "meta": E4_META,
+    },
+    "C05": {
+        "engine": "e1",
+        "quick": {"runs": 40000, "block": 1000, "wall": 75},
+        "thorough": {"runs": 2000000, "block": 5000, "wall": 560},
+        "meta": E1_META,
+    },
+    "C14": {
+        "engine": "e1",
+        "quick": {"runs": 40000, "block": 1000, "wall": 75},
+        "thorough": {"runs": 2000000, "block": 5000, "wall": 560},
+        "meta": E1_META,
+    },
+    "C19": {
+        "engine": "e1",
+        "quick": {"runs": 40000, "block": 1000, "wall": 75},
+        "thorough": {"runs": 2000000, "block": 5000, "wall": 560},
+        "meta": E1_META,
     },
 }
